@@ -36,6 +36,7 @@ class PeekCheck:
         self.by_next_def = {v: k for k, v in self.next_fn.items()}
         self.memo = {}
         self.peek_trees = {}
+        self.helper_trees = {}
 
     # ---- canonical form: current-state field leaves, inlined sub-peeks -------------------------------------
     def peek_tree(self, adt):
@@ -61,6 +62,28 @@ class PeekCheck:
         res = uniq[0] if len(uniq) == 1 else None
         self.peek_trees[adt] = res
         return res
+
+    def helper_tree(self, d):
+        """canonical result of a crate-local `fn(&self) -> V` that only reads its receiver (one result expression on all paths), else None"""
+        if d in self.helper_trees:
+            return self.helper_trees[d]
+        self.helper_trees[d] = None
+        b = self.m.body(d)
+        if b is None or b.arg_count != 1 or not b.local_ty(1).startswith('&') or b.local_ty(1).startswith('&mut'):
+            return None
+        trees = []
+        try:
+            for p in enumerate_paths(b, limit=200):
+                ps = PathSym(b, p)
+                if ps.returns:
+                    if ps.stores or any(tr[6] for _, tr in ps.calls):
+                        return None
+                    trees.append(self.canon(ps.ret, ps, final=True, post_call_ok=False))
+        except TooManyPaths:
+            return None
+        if len(trees) >= 1 and all(t == trees[0] for t in trees) and not any(x and x[0] in ('local', 'rt') for x in walk_tree(trees[0])):
+            self.helper_trees[d] = trees[0]
+        return self.helper_trees[d]
 
     def rebase(self, tree, prefix):
         if not isinstance(tree, tuple):
@@ -126,6 +149,24 @@ class PeekCheck:
                         if sub is not None:
                             return self.rebase(sub, fp)
                         return ('peek', adt, fp)
+            if len(args) == 1 and d not in self.by_peek_def and d not in self.by_next_def:
+                # a crate-local read-only accessor `fn h(&self) -> V` applied to self or to a field: inline its (single) result expression
+                a0 = _strip(args[0])
+                target = None
+                if a0[0] == 'sf':
+                    target = a0[1]
+                    stale = bool(target) and a0[2] != ps.final_version(target[0])
+                    if not target:
+                        stale = t[5] != ps.final_snapshot()
+                elif a0[0] == 'arg' and a0[1] == 1:
+                    target = ()
+                    stale = t[5] != ps.final_snapshot()
+                if target is not None:
+                    sub = self.helper_tree(d)
+                    if sub is not None:
+                        if stale:
+                            return ('STALE-CALL', d, target)
+                        return self.rebase(sub, target)
             return ('call', d, tuple(self.canon(a, ps, final, post_call_ok) for a in args))
         if k == 'cast' and t[1] in ('PointerCoercion',):
             return self.canon(t[2], ps, final, post_call_ok)
